@@ -36,7 +36,7 @@ func TestMain(m *testing.M) {
 	slog.SetDefault(slog.New(slog.DiscardHandler))
 	evid.Main(m, "C15", "exploration",
 		"hist: rapid-generated digraph (shapes raw/dag/layered diamonds/diamond chain/chain of cycles/DAG of cycles/dense; 1..8 nodes, 12 in thorough; self loops, duplicate edges, isolated nodes; arbitrary distinct uint64 ids incl. 0, 2^16, 2^32, 2^63, max; generated insertion order) built as CSR digraph or adjacency-map digraph, cache capacity from {-1,0,1,2,3,n,100}, then a generated history of 2..16 queries (CanReach, ReachOfComponentContainingMember, ReachSliceOfComponentContainingMember, OrReach, XorReach; inbound/outbound; members and non-members), usually followed by a sweep asking the reach of every node in both directions; EVERY answer is compared with a BFS on the original edge list. Non-trivial = within the generated part of the history (sweep not counted) a reach-type query on a component that was not a query root before in that direction raised Stats().Hits() (an entry written while answering an earlier, different query was consulted) and, when the effective capacity is smaller than the number of components, more distinct root components than the capacity were asked in that direction (so an eviction must have happened). scc: non-trivial = at least two components, one of them with >= 2 members, and an edge between components. evict: same oracle and same rule as hist, generator concentrated on 6..8 nodes, capacity 0..3, one direction, repeated questions, always swept. dag5 (enumerated, not sampled): every DAG on 5 ordered nodes x ids ascending/descending x direction x capacity {1,100} (thorough {0,1,2,3,100}, both implementations) x every ordered pair of distinct first reach queries, then the reach of all five nodes; same rule as hist. distinct = hash of the whole case.",
-		"direction means graph.DirectionInbound / graph.DirectionOutbound (the two directions the caches exist for); DirectionBoth is not part of the property",
+		"direction means graph.DirectionInbound / graph.DirectionOutbound (the two directions the caches exist for); answers to DirectionBoth queries are not judged, but such queries are part of the generated histories (1 op in 8) that the judged answers must not depend on",
 		"OrReach removes the queried node from the result and XorReach removes it from the reach before the xor, as their doc comments state; the reach of a member contains the member's whole component (so the member itself)",
 		"single goroutine: concurrency of the cache is C16's subject",
 		"graphs are small (<= 12 nodes); a defect that needs a deeper component DAG than that is out of reach")
@@ -58,7 +58,7 @@ func direction(d string) graph.Direction {
 
 // Op is one query of the history. Node ids are literal so that a replay file is readable.
 type Op struct {
-	K    string   `json:"k"` // canreach | reach | slice | or | xor
+	K    string   `json:"k"` // canreach | reach | slice | or | xor | both (a DirectionBoth query, history only)
 	Dir  string   `json:"d"` // out | in
 	A    uint64   `json:"a"`
 	B    uint64   `json:"b,omitempty"`    // canreach: end id
@@ -542,6 +542,11 @@ func genCase(t *rapid.T, p profile) Case {
 		default:
 			op.Dir = bias
 		}
+		if rapid.IntRange(0, 7).Draw(t, "both") == 0 {
+			// a query in the third direction the API accepts: its own answer is outside the property (the caches exist
+			// for inbound and outbound), but it is part of the history the later answers must not depend on
+			op.K = "both"
+		}
 		op.A = pick("a")
 		if i > 0 && !p.mixedDirs && rapid.IntRange(0, 3).Draw(t, "again") == 0 {
 			// ask an earlier question again: a hit marks the entry as visited for the SIEVE hand
@@ -584,6 +589,10 @@ func runOp(rc *algo.ReachabilityCache, m *model, op Op) error {
 	dir := direction(op.Dir)
 	want := m.bfs(op.A, op.Dir)
 	switch op.K {
+	case "both":
+		// history only (see genCase): the answer is not judged
+		_ = rc.ReachOfComponentContainingMember(op.A, graph.DirectionBoth)
+		_ = rc.CanReach(op.A, op.A, graph.DirectionBoth)
 	case "canreach":
 		exp := m.member[op.A] && m.member[op.B] && want[op.B]
 		if got := rc.CanReach(op.A, op.B, dir); got != exp {
